@@ -1,11 +1,15 @@
 """C11 - tomography of a qubit subset (core clause: selection, order, significance, re-embedding)."""
 from ..rules_flow import Flow, P_rules
-from ..rules_tomo import B1_B2_counts, B3_reembed, W1_W2_builders, W11_fitter_uses_list
+from ..rules_tomo import H1_histogram_accumulates, B1_B2_counts, B3_reembed, W1_W2_builders, W11_fitter_uses_list
 
 
 def run(tree, rep, tier):
     flow = Flow(tree)
     flow.describe(rep)
+    H1_histogram_accumulates(rep, flow)
+    if rep.findings:
+        rep.note("H1 fired: the estimator no longer has the loop shape the remaining rules are written for; they are skipped in this run")
+        return
     B1_B2_counts(rep, flow, want=("B2",))
     B3_reembed(rep, flow)
     P_rules(rep, flow, which=("P3",))
@@ -13,5 +17,6 @@ def run(tree, rep, tier):
     W11_fitter_uses_list(rep, flow)
     rep.trusted += ["Q1", "Q5"]
     rep.decided += ["marginalisation selects exactly the listed qubits in the listed order and bit significance (B2)", "readout composed onto the listed qubits in order (P3); the fitter receives the same list and the register width (W1) and marginalises onto exactly that list (W11)",
-                    "re-embedding writes factor j at register position q_j (B3)"]
+                    "re-embedding writes factor j at register position q_j (B3)",
+                    "outcome histograms add up the counts of marginalised outcomes that coincide (H1)"]
     rep.not_decided += ["values of the expectations (as C10)"]
